@@ -36,6 +36,7 @@ def p_loc_store(rng):
 
 def p_dropna(rng):
     df = _frame(rng)
+    df.iloc[3, :] = 1.5          # a row whose only special cell is the infinity
     df.iloc[3, 1] = np.inf
     out = df.dropna()
     want = df.index[df.notna().all(axis=1).values]
